@@ -839,8 +839,37 @@ func playFile(events []fileEvent, m *module, lists [][]any) (string, bool) {
 		}
 		return nil
 	}
+	// two files prepared now (their modification time is older than anything written later) to be rotated in by events 10, 11
+	prepared := map[int]bool{}
+	for k := 0; k < 2; k++ {
+		if err := os.WriteFile(path+fmt.Sprint(".prepared", k), m.encode(lists[1+k]), 0o644); err != nil {
+			return err.Error(), true
+		}
+		prepared[k] = true
+	}
 	for i, ev := range events {
 		switch ev.kind {
+		case 9: // the file is renamed away and the very same file is renamed back: the same content is in force again
+			if err := os.Rename(path, path+".away"); err != nil {
+				return err.Error(), true
+			}
+			if err := os.Rename(path+".away", path); err != nil {
+				return err.Error(), true
+			}
+			time.Sleep(300 * time.Millisecond) // (the expected rules do not change: let the watcher see the rename before converging)
+		case 10, 11: // the file is renamed away and a file prepared earlier (older modification time) is rotated in
+			k := ev.kind - 10
+			if !prepared[k] || fmt.Sprint(sortedKeys(m, lists[1+k])) == fmt.Sprint(want) {
+				continue
+			}
+			prepared[k] = false
+			if err := os.Rename(path, path+fmt.Sprint(".old", i)); err != nil {
+				return err.Error(), true
+			}
+			if err := os.Rename(path+fmt.Sprint(".prepared", k), path); err != nil {
+				return err.Error(), true
+			}
+			want = sortedKeys(m, lists[1+k])
 		case 0, 1:
 			l := pick(ev.kind)
 			if l == nil {
@@ -904,7 +933,7 @@ func playFile(events []fileEvent, m *module, lists [][]any) (string, bool) {
 	return "", false
 }
 
-var eventKinds = []int{0, 1, 0, 1, 2, 3, 4, 5, 8, 8}
+var eventKinds = []int{0, 1, 0, 1, 2, 3, 4, 5, 8, 8, 9, 10, 11}
 
 func TestFileDatasource(t *testing.T) {
 	hx.Check(t, hx.N{Quick: 40, Thorough: 80}, func(t *rapid.T, c *hx.Case) {
